@@ -9,26 +9,37 @@ package main
 //     25           a second process attaches (cache.NewSHM(key, .., false)) and runs the lookup battery
 //     26 ver size  a second process attaches while the header says version ver / size size (restored afterwards)
 //     27 id        bbs.ReloadUHash(id) (sysop only; implementation-only scenarios, not part of the model)
+//     29 mode op.. the operation op (one of 10 11 12 13 14 15 21, with its arguments) is executed by a SECOND process that attached to
+//                  the existing segment: mode 0 = cache.NewSHM(key, .., false), mode 1 = cache.NewSHM(key, .., true) finding the segment
+//                  there (what a second daemon does at start-up); either way its Shm.IsNew is false. The second process is killed when
+//                  it has not answered within VERIF_C04_PROC2_DEADLINE_MS (default 2500, a quarter of it after six such kills): status 2, and the history is abandoned
+//                  after this step's observation (the line ends there).
 //     30 ids...    set the lookup battery    31 h...   set the buckets whose chains are printed
 // Every op prints  <status> <code> [13 bytes for 13/14/15 | n uids for 25]  followed by the observation
 //   Number Loaded <#heads != -1> nb (h k slot*k end)*nb  <MAX_USERS*13 id bytes>  nl uid*nl
 // where the chains are walked in the attached memory (end: -1 proper, -2 link out of range, -3 longer than MAX_USERS).
 //   2|id   cmsys.StringHashWithHashBits      3   constants of the compiled program
+//   4      1 when this (the first) process created the segment (cache.Shm.IsNew), else 0
 // implrun C04ATTACH is the second process: it attaches to the key in VERIF_C04_KEY and answers "1|ids..." with the uids.
+// implrun C04PROC2 is the second process of op 29: it attaches (VERIF_C04_KEY, VERIF_C04_MODE), runs "1|op.." and answers with the op's result.
 
 import (
 	"bytes"
+	"context"
 	"errors"
 	"fmt"
 	"io"
 	"os"
 	"os/exec"
+	"path/filepath"
 	"strconv"
 	"strings"
+	"time"
 	"unsafe"
 
 	"github.com/Ptt-official-app/go-pttbbs/bbs"
 	"github.com/Ptt-official-app/go-pttbbs/cache"
+	"github.com/Ptt-official-app/go-pttbbs/cmbbs"
 	"github.com/Ptt-official-app/go-pttbbs/cmsys"
 	"github.com/Ptt-official-app/go-pttbbs/ptttype"
 	"github.com/Ptt-official-app/go-pttbbs/types"
@@ -165,6 +176,54 @@ func c04Spawn(st *c04State) ([]string, error) {
 	return strings.Fields(so.String()), nil
 }
 
+var c04Proc2Hangs = 0
+
+// op 29: the operation g is executed by a second process attached to the segment of this one.
+func c04Proc2(mode string, g []string) []string {
+	zero13 := ob(make([]byte, int(ptttype.USER_ID_SZ)))
+	if len(g) < 1 {
+		panic("badcase:proc2")
+	}
+	op := ai(g[0])
+	switch op {
+	case 10, 11, 12, 13, 14, 15, 21:
+	default:
+		panic("badcase:proc2 op")
+	}
+	withID := func(r []string) []string {
+		if op == 13 || op == 14 || op == 15 {
+			return append(r, zero13...)
+		}
+		return r
+	}
+	ms := 2500
+	if v, err := strconv.Atoi(os.Getenv("VERIF_C04_PROC2_DEADLINE_MS")); err == nil && v > 0 {
+		ms = v
+	} else if c04Proc2Hangs >= 6 { // a tree on which second processes keep spinning: do not spend minutes on it (the first ones are re-run by the check with more time)
+		ms /= 4
+	}
+	ctx, cancel := context.WithTimeout(context.Background(), time.Duration(ms)*time.Millisecond)
+	defer cancel()
+	cmd := exec.CommandContext(ctx, os.Args[0], "C04PROC2", "-deadline", strconv.Itoa(ms*4))
+	cmd.Env = append(os.Environ(), "VERIF_C04_KEY="+strconv.Itoa(int(cache.TestShmKey)), "VERIF_C04_MODE="+mode)
+	cmd.Stdin = strings.NewReader("1|" + strings.Join(g, " ") + "\n")
+	var so, se bytes.Buffer
+	cmd.Stdout, cmd.Stderr = &so, &se
+	err := cmd.Run()
+	if ctx.Err() != nil { // killed at the deadline: the operation did not return
+		c04Proc2Hangs++
+		return withID([]string{"2", "0"})
+	}
+	out := strings.Fields(so.String())
+	if err != nil || len(out) < 2 {
+		if os.Getenv("VERIF_SHOW_PANIC") != "" {
+			fmt.Fprintln(os.Stderr, "proc2:", err, se.String(), so.String())
+		}
+		return withID([]string{"3", "98"})
+	}
+	return out
+}
+
 func c04Step(st *c04State, g []string) (res []string) {
 	zero13 := ob(make([]byte, int(ptttype.USER_ID_SZ)))
 	op := ai(g[0])
@@ -245,6 +304,11 @@ func c04Step(st *c04State, g []string) (res []string) {
 			return []string{"3", "7"}
 		}
 		return []string{"3", "8"}
+	case 29:
+		if len(g) < 3 || (g[1] != "0" && g[1] != "1") {
+			panic("badcase:proc2 mode")
+		}
+		return c04Proc2(g[1], g[2:])
 	case 30:
 		st.battery = c04IDs(g[1:])
 		return []string{"0", "0"}
@@ -262,10 +326,40 @@ func c04Step(st *c04State, g []string) (res []string) {
 	panic("badcase:op")
 }
 
+// newBBSEnv (bbsenv.go) without its cache.LoadUHash(): the set-up runs outside the driver's deadline, and the first load of the
+// zeroed segment by its creator is one of the things this property is about - it has to happen inside a case.
+func c04NewEnv(fixture string) *bbsEnv {
+	logrus.SetLevel(logrus.PanicLevel)
+	logrus.SetOutput(io.Discard)
+	e := &bbsEnv{repo: repoRoot()}
+	root, err := os.MkdirTemp("", "verifbbs")
+	if err != nil {
+		panic(err)
+	}
+	e.root = root
+	e.home = filepath.Join(root, "testcase")
+	must(os.MkdirAll(e.home, 0o755))
+	must(os.Symlink(filepath.Join(e.repo, "types"), filepath.Join(root, "types")))
+	e.loadFixture(fixture)
+	must(os.Chdir(root))
+
+	pid := os.Getpid()
+	cache.TestShmKey = types.Key_t(0x56000000 + pid%0xffffff)
+	cmbbs.TestPASSWDSEM_KEY = 0x57000000 + pid%0xffffff
+	types.SetIsTest("main")
+	ptttype.SetIsTest()
+	cache.SetIsTest()
+	cmbbs.SetIsTest()
+	must(cache.NewSHM(cache.TestShmKey, ptttype.USE_HUGETLB, true))
+	cache.Shm.Reset()
+	_ = cmbbs.PasswdInit()
+	return e
+}
+
 func init() {
 	var env *bbsEnv
 	register("C04", &propDriver{
-		setup:    func() { env = newBBSEnv("ptt", false) },
+		setup:    func() { env = c04NewEnv("ptt") },
 		teardown: func() { env.close() },
 		run: func(args [][]string) []string {
 			switch ai(args[0][0]) {
@@ -278,8 +372,12 @@ func init() {
 					if len(g) < 1 {
 						return []string{"9"}
 					}
-					out = append(out, c04Step(st, g)...)
+					r := c04Step(st, g)
+					out = append(out, r...)
 					out = append(out, c04Observe(st)...)
+					if r[0] == "2" { // a second process had to be killed: the history is abandoned here
+						break
+					}
 				}
 				return out
 			case 2:
@@ -287,8 +385,34 @@ func init() {
 			case 3:
 				return ok(oi(int64(ptttype.MAX_USERS)), oi(int64(len(cache.Shm.Shm.HashHead))), oi(int64(ptttype.USER_ID_SZ)),
 					oi(int64(cache.SHM_VERSION)), oi(int64(cache.SHM_RAW_SZ)), oi(int64(cache.PRE_ALLOCATED_USERS)))
+			case 4:
+				return ok(obool(cache.Shm.IsNew))
 			}
 			return []string{"9"}
+		},
+	})
+
+	// the second process of op 29: attaches to the existing segment (never creates it: the first process holds it), runs one operation
+	register("C04PROC2", &propDriver{
+		run: func(args [][]string) []string {
+			key, err := strconv.Atoi(os.Getenv("VERIF_C04_KEY"))
+			if err != nil || len(args) != 2 || len(args[1]) < 1 {
+				return []string{"9", "9"}
+			}
+			logrus.SetLevel(logrus.PanicLevel)
+			logrus.SetOutput(io.Discard)
+			ptttype.SetIsTest() // BBSHOME = ./testcase of the inherited working directory; cache.IsTest stays false (CloseSHM must not remove the segment)
+			if cache.Shm == nil {
+				if err := cache.NewSHM(types.Key_t(key), ptttype.USE_HUGETLB, os.Getenv("VERIF_C04_MODE") == "1"); err != nil {
+					return []string{"3", "97"}
+				}
+			}
+			if cache.Shm.IsNew { // the segment was not there: not the scenario (and it must not stay behind)
+				cache.SetIsTest()
+				_ = cache.CloseSHM()
+				return []string{"9", "9"}
+			}
+			return c04Step(&c04State{}, args[1])
 		},
 	})
 
